@@ -455,4 +455,83 @@ example : published (replyStep 1048576 .reply [[40], [4, 8]] [[40], [4, 30]]) = 
 example : replyStep 1048576 .error [[1048570], [4, 30], [7]] [] = ⟨1, 11, false⟩ := by decide
 example : httpReply 64 .reply [[100], [4, 8]] [] = (413, none) := by decide
 
+/-- **Fields are written under their lock** (regenerated from lib/go on every check): no method writes a field
+of a mutex-holding struct (the framed reader's state) while no mutex of that struct is write-held — by assignment, `++`, `delete` or an
+atomic store — unless the site is one of the hand-classified set-up / single-owner sites of
+`known/locks_unguarded_expected.txt`. The atomic-step models read and write such state in ONE critical section;
+a value computed from a read under the lock and stored after it was released (a lazily filled cache) is a lost
+update the models cannot exhibit and the race detector does not see. -/
+theorem c05_fields_written_under_lock :
+    FV.Locks.writesGuarded [3] FV.Generated.Locks.unguardedUnexpected = true := by decide +kernel
+
+end FV.C05
+
+/-! ## Sixth part — size fields of the HTTP layer itself (Content-Length, chunk sizes) chosen by the peer and
+inconsistent with what it sends. Model: `Framing`, `delivered`, `httpCallEnvelope` in `FV.Model.Receivers4`. -/
+namespace FV.C05
+open FV FV.Recv4
+
+/-- The outcome of a call depends only on the status and the bytes actually RECEIVED, never on a length the
+peer announced: two responses (any Content-Length, any chunk-size lines, any bytes sent) from which the same
+bytes are delivered end the call the same way. -/
+theorem c05_http_outcome_ignores_announced_length (dec : Bytes → B64) (guarded : Bool) (method : Bytes) (status : Nat)
+    (fr1 fr2 : Framing) (sent1 sent2 : Bytes) (h : delivered status fr1 sent1 = delivered status fr2 sent2) :
+    httpCallEnvelope dec guarded method status fr1 sent1 = httpCallEnvelope dec guarded method status fr2 sent2 := by
+  unfold httpCallEnvelope
+  rw [h]
+
+/-- In particular: once the body that was sent has arrived whole under a truthful Content-Length, announcing
+anything larger instead — 2^50, 2^62, max int64 — only turns the outcome into the transport's error (the body
+"ends early"); it is never a panic, and the announced number appears nowhere in the result. -/
+theorem c05_http_announced_above_sent_is_an_error (dec : Bytes → B64) (method : Bytes) (status a : Nat) (sent : Bytes)
+    (h204 : status ≠ 204 ∧ status ≠ 304) (ha : sent.length < a) :
+    httpCallEnvelope dec true method status (.length a) sent = .req (if status = 413 then .tooLarge else .transport) := by
+  have hd : delivered status (.length a) sent = none := by
+    unfold delivered
+    rw [if_neg (by omega)]
+    dsimp only
+    rw [if_neg (by omega)]
+  unfold httpCallEnvelope httpReceived
+  rw [hd]
+  split <;> rfl
+
+/-- … and a Content-Length at or below what was sent delivers exactly that prefix: the call is the call on
+those bytes. -/
+theorem c05_http_announced_within_sent (dec : Bytes → B64) (guarded : Bool) (method : Bytes) (status a : Nat) (sent : Bytes)
+    (h204 : status ≠ 204 ∧ status ≠ 304) (h413 : status ≠ 413) (ha : a ≤ sent.length) :
+    httpCallEnvelope dec guarded method status (.length a) sent = httpCall guarded method status (dec (sent.take a)) := by
+  have hd : delivered status (.length a) sent = some (sent.take a) := by
+    unfold delivered
+    rw [if_neg (by omega)]
+    dsimp only
+    rw [if_pos ha]
+  unfold httpCallEnvelope httpReceived
+  rw [hd, if_neg h413]
+
+/-- Every envelope — any status, any announced sizes, any bytes, whatever base64 makes of them — ends in the
+transport's error or in a stage of `processReply`: never a panic. -/
+theorem c05_http_envelope_total (dec : Bytes → B64) (method : Bytes) (status : Nat) (fr : Framing) (sent : Bytes) :
+    (∃ e, httpCallEnvelope dec true method status fr sent = .req e) ∨
+    (∃ o, httpCallEnvelope dec true method status fr sent = .reply o) :=
+  httpReceived_total dec method status _
+
+/-- Why it matters that nothing is sized by the announcement: a `makeRequest` that grew its buffer to the
+announced Content-Length first (NOT the code) panics in the caller's goroutine on a 12-byte response that
+announces 2^50 bytes, where the code returns the transport's error. -/
+theorem c05_http_presized_variant_panics (dec : Bytes → B64) (method sent : Bytes) (hs : sent.length < 1125899906842624) :
+    httpCallPresized dec true method 200 (.length 1125899906842624) sent = .panic .overflow ∧
+    httpCallEnvelope dec true method 200 (.length 1125899906842624) sent = .req .transport := by
+  constructor
+  · unfold httpCallPresized
+    dsimp only
+    rw [if_pos ⟨by omega, by unfold maxAlloc; omega⟩]
+  · have := c05_http_announced_above_sent_is_an_error dec method 200 1125899906842624 sent ⟨by omega, by omega⟩ hs
+    rw [this]
+    rfl
+
+example : delivered 200 (.length 9223372036854775807) [65, 65] = none := by decide
+example : delivered 200 (.length 1) [65, 66] = some [65] := by decide
+example : delivered 200 (.chunked [(2, 2), (1, 1)] true) [65, 66, 67] = some [65, 66, 67] := by decide
+example : delivered 200 (.chunked [(4611686018427387904, 2)] true) [65, 66] = none := by decide
+
 end FV.C05
